@@ -5,15 +5,20 @@ from .. import modelrun, c19_trace
 from ..env import VERIF
 
 ASSUME = [
-    "modelled, not verified: json.dumps/json.loads (Section variables with the hypotheses json_rt / json_shape, "
-    "answered by the real json through the oracle pipe at run time), base64 (b64_rt, b64_clean; real base64 at "
-    "run time), the locale text codec of open(..., 'w'/'r') (UTF-8 here; a file is identified with its decoded "
+    "modelled, not verified: json.dumps/json.loads (Section variables with the hypotheses json_rt / json_shape / "
+    "json_no_cr, answered by the real json through the oracle pipe at run time and re-checked on every call), "
+    "the locale text codec of open(..., 'w'/'r') (UTF-8 here; a file is identified with its decoded "
     "text), POSIX semantics of open(O_TRUNC)/write/rename (rename atomically replaces the target; a write may "
     "be cut after any prefix), path strings identify files (no symlinks / relative-path aliasing)",
     "crash = death of the process (page cache survives); power loss / storage-medium durability is not modelled "
     "(fsync is observed in the trace but not needed by the theorem)",
     "key=value is untyped: an int-valued attribute (cc) is compared by its decimal text after a key=value "
     "round trip (DESIGN.md C19, deliberate reading); JSON keeps int vs str",
+    "base64 is modelled in Gallina (coq/C19/C19B64.v: b64_encode, b64_decode = the lenient binascii.a2b_base64 "
+    "state machine) and its alphabet / one-line / round-trip facts are theorems for every length; tie: the "
+    "extracted b64_encode/b64_decode vs the interpreter's base64 on all lengths 0..200 and long inputs, canonical "
+    "/ line-broken / truncated / junk texts; every binary field encoder of ConfigSerialize vs the model at "
+    "lengths 0,1,2,3,56..59,100,1000 and its output checked to be over the 65-character alphabet",
     "tie: extracted model vs real ConfigManager/transforms on generated configs, dicts, texts, paths; real "
     "syscall trace of every traced save is checked against the model's boolean fresh_then_rename and against "
     "save_prog, and every crash prefix is materialised and loaded by the real loader",
@@ -25,6 +30,12 @@ PARAMS = ["phone", "cc", "login", "password", "pushname", "id", "mcc", "mnc", "s
 SCALARS = ["phone", "cc", "login", "password", "pushname", "mcc", "mnc", "sim_mcc", "sim_mnc", "fdid",
            "chat_dns_domain"]
 BYTESF = ["id", "expid", "edge_routing_info"]
+BINARY = BYTESF + ["server_static_public", "client_static_keypair"]
+B64_ALPHABET = set("ABCDEFGHIJKLMNOPQRSTUVWXYZabcdefghijklmnopqrstuvwxyz0123456789+/=")
+BOUNDARY_LENS = [0, 1, 2, 3, 56, 57, 58, 59, 100, 1000]
+KV_STRINGS = ["a=b", "=", "==", "a = b", "x y", "k=v=w", "trailing=", "=leading", "AA==", "J\u00fcrgen \u2713 \u65e5\u672c",
+              "\U0001f600=\U0001f600", "tab\tinside", "-dash-", "{\"a\": 1}", "back\\slash"]
+JSON_ONLY_STRINGS = ["a#b", "#", ";x", "a;b#c", "two\nlines", " lead", "trail ", "\t", "cr\rlf\r\n", "", " "]
 KEYVAL, JSON = 1, 2
 FMT_NAME = {KEYVAL: "keyval", JSON: "json"}
 
@@ -175,22 +186,12 @@ class Oracle(object):
     def __init__(self):
         self.unmodelled_json = 0
         self.calls = 0
-        self.hyp_fail = []      # violated Section hypotheses of the theorems (b64_rt, b64_clean, json_*)
+        self.hyp_fail = []      # violated Section hypotheses of the theorems (json_rt, json_shape, json_no_cr)
 
     def __call__(self, q):
         from yowsup.config.transforms.dict_json import DictJsonTransform
         self.calls += 1
         pid = q[0]
-        if pid == 1:
-            t = base64.b64encode(q[1]).decode()
-            if base64.b64decode(t) != q[1] or any(c in t for c in "#;\n\r") or t != t.strip():
-                self.hyp_fail.append(("b64_rt/b64_clean", q[1].hex()))
-            return tx(t)
-        if pid == 2:
-            try:
-                return [base64.b64decode(xt(q[1]))]
-            except Exception:
-                return []
         if pid == 3:
             d = dict(sx_jdict(q[1]))
             t = DictJsonTransform().transform(d)
@@ -214,15 +215,21 @@ class Oracle(object):
 
 
 # ------------------------------------------------------------------ implementation adapters
-def impl_load(arg):
+def impl_load(arg, profile_only=False):
     from yowsup.config.manager import ConfigManager
     try:
-        c = ConfigManager().load(arg)
+        c = ConfigManager().load(arg, profile_only=True) if profile_only else ConfigManager().load(arg)
     except Exception as e:
         return ("err", type(e).__name__)
     if c is None:
         return ("none",)
     return ("ok", spec_of_cfg(c))
+
+
+def short(x, n=1500):
+    """replay files stay readable: long observed/expected values are abbreviated"""
+    r = repr(x)
+    return x if len(r) <= n else r[:n] + "...(%d chars)" % len(r)
 
 
 def same_lres(a, b):
@@ -290,6 +297,9 @@ def gen_text(rng, kv, maxlen=12):
     return s
 
 
+BIN_LENS = [0, 1, 2, 3, 16, 20, 20, 20, 33, 56, 57, 58, 59, 64, 100, 200, 1000]
+
+
 def gen_spec(rng, kv, subset=None, p=None):
     if p is None:
         p = rng.choice([.15, .5, .9])
@@ -310,11 +320,11 @@ def gen_spec(rng, kv, subset=None, p=None):
         elif name in SCALARS:
             spec[name] = ["s", gen_text(rng, kv, 24)]
         elif name in BYTESF:
-            spec[name] = ["b", rng.randbytes(rng.choice([0, 1, 2, 3, 16, 20, 20, 33])).hex()]
+            spec[name] = ["b", rng.randbytes(rng.choice(BIN_LENS)).hex()]
         elif name == "client_static_keypair":
             spec[name] = ["kp", rng.randbytes(32).hex(), rng.randbytes(32).hex()]
         else:
-            spec[name] = ["pk", rng.randbytes(rng.choice([32, 32, 32, 0, 31, 33])).hex()]
+            spec[name] = ["pk", rng.randbytes(rng.choice([32, 32, 32, 32, 0, 31, 33, 57, 58, 100])).hex()]
     return spec
 
 
@@ -431,6 +441,161 @@ class Run(object):
             if isinstance(g, tuple) or xt(g) != os.path.join(a, b):
                 self.corr("pjoin", {"kind": "pjoin", "a": a, "b": b})
 
+    # ---- base64: the Gallina b64_encode / b64_decode against the interpreter's base64
+    def base64_layer(self):
+        ctx, m, rng = self.ctx, self.m, self.ctx.rng
+        if not m:
+            return
+        quick = ctx.tier == "quick"
+        lens = list(range(0, 201)) + [255, 256, 257, 300, 511, 512, 1000, 1001, 1002, 3000]
+        if not quick:
+            lens += list(range(201, 1200)) + [4096, 10000]
+        datas = [rng.randbytes(n) for n in lens]
+        datas += [bytes([v]) * k for v in (0, 255, 0xfb, 0xfc, 0x3e, 0x3f, 0x80) for k in (1, 2, 3, 4, 57, 58)]
+        allb = bytes(range(256))
+        datas += [allb, allb[1:] + allb[:1], allb[2:] + allb[:2], allb[::-1]]      # every byte at every position mod 3
+        got = m.call_many("run_b64enc", datas)
+        real = []
+        for b, g in zip(datas, got):
+            self.count("b64enc", ("b64e", b), nt=len(b) >= 3)
+            exp = base64.b64encode(b).decode()
+            real.append(exp)
+            if isinstance(g, tuple) or xt(g) != exp:
+                self.corr("b64_encode", {"kind": "b64enc", "data": b.hex(), "model": repr(g)[:200], "impl": exp[:200]})
+            if not set(exp) <= B64_ALPHABET or base64.b64decode(exp) != b or len(exp) != 4 * ((len(b) + 2) // 3):
+                self.b64_fail.append(("interpreter base64.b64encode output outside the alphabet / not decodable", b.hex()[:80]))
+        ok = m.call_many("run_b64_text_ok", [tx(t) for t in real])
+        for t, g in zip(real, ok):
+            if g != [1, 1]:
+                self.corr("b64_text_ok", {"kind": "b64_text_ok", "text": t[:200], "model": repr(g)})
+        # the MIME flavour of the refutation witness
+        mim = m.call_many("run_b64mime", datas[:120] + datas[-8:])
+        for b, g in zip(datas[:120] + datas[-8:], mim):
+            self.count("b64mime")
+            exp = base64.encodebytes(b).decode().strip()
+            if isinstance(g, tuple) or xt(g) != exp:
+                self.corr("b64_mime", {"kind": "b64mime", "data": b.hex(), "model": repr(g)[:200], "impl": exp[:200]})
+        # decoder: canonical, line-broken, truncated, padded/unpadded, junk, non-ASCII
+        texts = list(real)
+        texts += [base64.encodebytes(b).decode() for b in datas[50:130]]
+        texts += [base64.encodebytes(b).decode().strip() for b in datas[50:130]]
+        texts += [base64.urlsafe_b64encode(b).decode() for b in datas[:60]]
+        texts += ["", "=", "==", "===", "====", "A", "A=", "A==", "A===", "AA", "AA=", "AA==", "AA===", "AA=A", "AA=A=",
+                  "AAA", "AAA=", "AAA==", "AAAA", "AAAA=", "AAAA==", "AAAAA", "AA==AA==", "A=A=A=A=", "=AAAA", "==AA==",
+                  "AA=\n=", "AA=@=", "AA=@=AAAA", "AB==CD", "QUJD", "QUJ", "@@@", "\u00e4", "QUJD\u00e4", "QUJD\n", " QUJD ",
+                  "QU JD", "QU\nJD", "QUJDRA==", "QUJDRA=", "QUJDRA", "QUJDR", "Q=UJD", "Q==UJD", "QU=JD", "QU==JD",
+                  "QUJ=D", "QUJ==D", "QUJ=", "QUJ=\n", "QUJ=QUJD", "QU==QUJD", "+/+/", "-_-_", "AA\x00==", "AA\x7f=="]
+        alpha = "ABCDEFGHIJKLMNOPQRSTUVWXYZabcdefghijklmnopqrstuvwxyz0123456789+/"
+        for _ in range(400 if quick else 6000):
+            n = rng.choice([0, 1, 2, 3, 4, 5, 6, 7, 8, 9, 12, 13, 20, 77, 78, 90])
+            texts.append("".join(rng.choice(alpha) if rng.random() < .7 else rng.choice("====\n\r -_@#;.\u00e9\x00")
+                                 for _ in range(n)))
+        for _ in range(200 if quick else 3000):
+            t = rng.choice(real[:120])
+            k = rng.randint(0, len(t))
+            texts.append(rng.choice([t[:k], t[:k] + "=", t[:k] + "\n" + t[k:], t[:k] + "=" + t[k:], t + t, t[k:]]))
+        got = m.call_many("run_b64dec", [tx(t) for t in texts])
+        for t, g in zip(texts, got):
+            self.count("b64dec", ("b64d", t), nt=len(t) >= 4)
+            try:
+                exp = base64.b64decode(t)
+            except Exception:
+                exp = None
+            mod = None if (isinstance(g, tuple) or not g) else g[0]
+            if isinstance(g, tuple) or mod != exp:
+                self.corr("b64_decode", {"kind": "b64dec", "text": t[:300], "model": repr(g)[:200], "impl": repr(exp)[:200]})
+        ctx.coverage["base64_model_vs_interpreter"] = {"encode_inputs": len(datas), "max_len": max(len(b) for b in datas),
+                                                       "decode_texts": len(texts)}
+
+    # ---- the five binary field encoders of ConfigSerialize, at every boundary length, both formats,
+    #      every load path; their output must be over the 65-character alphabet
+    def field_encoders(self, sdir):
+        from yowsup.config.v1.serialize import ConfigSerialize
+        from yowsup.config.v1.config import Config
+        from yowsup.config.transforms.dict_keyval import DictKeyValTransform
+        ctx, m, rng = self.ctx, self.m, self.ctx.rng
+        quick = ctx.tier == "quick"
+        lens = BOUNDARY_LENS if quick else sorted(set(BOUNDARY_LENS + list(range(0, 64)) + [75, 76, 77, 114, 115, 255, 256, 2000]))
+        kp = ["kp", rng.randbytes(32).hex(), rng.randbytes(32).hex()]
+        specs = []
+        for f in BYTESF + ["server_static_public"]:
+            for n in lens:
+                v = ["pk" if f == "server_static_public" else "b", rng.randbytes(n).hex()]
+                spec = {f: v}
+                if n % 2:
+                    spec["client_static_keypair"] = kp
+                    spec["pushname"] = rng.choice(KV_STRINGS)
+                specs.append((f, n, spec))
+        specs.append(("client_static_keypair", 64, {"client_static_keypair": kp}))
+        for n in (57, 58, 1000):       # every binary field long at once, textual values with '=' and unicode
+            specs.append(("all", n, {"phone": ["s", "4915112345678"], "cc": ["i", 49], "pushname": ["s", "a=b \u2713 = c"],
+                                     "id": ["b", rng.randbytes(n).hex()], "expid": ["b", rng.randbytes(n).hex()],
+                                     "edge_routing_info": ["b", rng.randbytes(n).hex()],
+                                     "server_static_public": ["pk", rng.randbytes(n).hex()],
+                                     "client_static_keypair": kp, "fdid": ["s", "7f3c2f3e-0000-4000-8000-000000000001"],
+                                     "mcc": ["s", "262"], "chat_dns_domain": ["s", "fb"]}))
+        T = DictKeyValTransform()
+        checked = 0
+        for f, n, spec in specs:
+            spec = {k: (["s", v] if isinstance(v, str) else v) for k, v in spec.items()}
+            # property first (so that a failing load is the first thing reported), then correspondence
+            self.roundtrip_case(spec, KEYVAL, sdir, True)
+            self.roundtrip_case(spec, JSON, sdir, True)
+            self.pipeline_case(spec, True)
+            try:
+                d = ConfigSerialize(Config).serialize(cfg_from_spec(spec))
+            except Exception:
+                continue
+            for name in BINARY:
+                if name not in d:
+                    continue
+                checked += 1
+                val = d[name]
+                if m and isinstance(val, str):
+                    line = name + "=" + val
+                    g = m.call("run_kv_parse_line", tx(line))
+                    mod = None if (isinstance(g, tuple) or not g or not g[0]) else (xt(g[0][0][0]), xt(g[0][0][1][1]))
+                    try:
+                        real = list(T.reverse(line).items())
+                    except Exception:
+                        real = None
+                    self.count("kv_field_line")
+                    if real != ([mod] if mod is not None else None) and not (mod is None and real == []):
+                        self.corr("kv_parse_line", {"kind": "kv_parse_line", "line": line[:300], "model": repr(g)[:300],
+                                                    "impl": repr(real)[:300]})
+                if not (isinstance(val, str) and set(val) <= B64_ALPHABET):
+                    try:
+                        broken = T.reverse(T.transform(d)) != {k: str(v) for k, v in d.items()}
+                    except Exception:
+                        broken = True
+                    self.b64_fail.append(("field encoder %s, %d bytes: output not over the base64 alphabet" % (name, n),
+                                          repr(val)[:120]))
+                    ctx.violation("hypothesis:C19.field_encoder_alphabet",
+                                  {"kind": "field_alphabet", "spec": spec, "field": name,
+                                   "observed": "serialize()[%r] = %s" % (name, short(val, 300)),
+                                   "expected": "text over [A-Za-z0-9+/=] (theorem C19_b64_alphabet is about "
+                                               "base64.b64encode; this encoder is something else)"},
+                                  found_input=broken)
+        ctx.coverage["binary_field_encoder_outputs_checked"] = checked
+        ctx.coverage["binary_field_lengths"] = lens if quick else "%d lengths, max %d" % (len(lens), max(lens))
+
+    # ---- textual values at the edge of the key=value domain
+    def string_cases(self, sdir):
+        rng = self.ctx.rng
+        others = [n for n in SCALARS if n not in ("pushname",)]
+        for i, sv in enumerate(KV_STRINGS + JSON_ONLY_STRINGS):
+            spec = {"pushname": ["s", sv], others[i % len(others)]: ["s", sv],
+                    "id": ["b", rng.randbytes(rng.choice([20, 58])).hex()]}
+            self.pipeline_case(spec, True)
+            self.roundtrip_case(spec, JSON, sdir, True)
+            if in_kv_domain(spec):
+                self.roundtrip_case(spec, KEYVAL, sdir, True)
+            else:
+                t = impl_to_str(spec, KEYVAL)
+                if t is not None and self.m:
+                    self.resolver_case(sdir, t, ".yo")
+                    self.resolver_case(sdir, t, "")
+
     # ---- DictKeyValTransform, directly
     def keyval_layer(self, n):
         from yowsup.config.transforms.dict_keyval import DictKeyValTransform
@@ -499,7 +664,7 @@ class Run(object):
         except Exception as e:
             d_impl = None
         if m:
-            g = m.call("orun_serialize", spec_sx(spec))
+            g = m.call("run_serialize", spec_sx(spec))
             d_mod = None if (isinstance(g, tuple) or not g) else dict(sx_jdict(g[0]))
             if isinstance(g, tuple) or d_mod != d_impl:
                 self.corr("serialize", {"kind": "serialize", "spec": spec, "model": repr(g)[:400], "impl": repr(d_impl)[:400]})
@@ -513,7 +678,7 @@ class Run(object):
         if back != spec:
             ctx.violation("oracle:pipeline_roundtrip", {"kind": "pipeline", "spec": spec, "observed": repr(back)[:600]})
         if m:
-            g = m.call("orun_deserialize", jdict_sx(d_impl))
+            g = m.call("run_deserialize", jdict_sx(d_impl))
             mod = None if (isinstance(g, tuple) or not g) else sx_spec(g[0])
             if mod != (back if isinstance(back, dict) else None):
                 self.corr("deserialize", {"kind": "deserialize", "dict": d_impl, "model": repr(g)[:400], "impl": repr(back)[:400]})
@@ -529,23 +694,25 @@ class Run(object):
         except Exception as e:
             back = None
         if self.m:
-            g = self.m.call("orun_deserialize", jdict_sx(d))
+            g = self.m.call("run_deserialize", jdict_sx(d))
             mod = None if (isinstance(g, tuple) or not g) else sx_spec(g[0])
             if mod != back:
                 self.corr("deserialize", {"kind": "deserialize", "dict": d, "model": repr(g)[:400], "impl": repr(back)[:400]})
 
     # ---- one load: the real loader and the model on the same files
-    def load_both(self, arg, files, dirs, expect, case, oracle_name, key=None, profile_name=None):
+    def load_both(self, arg, files, dirs, expect, case, oracle_name, key=None, profile_name=None,
+                  profile_only=False):
         """arg: path or profile name given to load(); files: [(path, text)] present on disk."""
-        got = impl_load(arg)
+        got = impl_load(arg, profile_only)
         self.count("load")
         if expect is not None and not same_lres(got, expect):
-            self.ctx.violation("oracle:" + oracle_name, dict(case, observed=got, expected=expect), key=key)
+            self.ctx.violation("oracle:" + oracle_name, dict(case, observed=short(got), expected=short(expect)), key=key)
+            self.rt_failed = True
         if self.m:
-            g = self.m.call("orun_load", [fs_sx(files, dirs), tx(self.root), tx(arg), 0])
+            g = self.m.call("orun_load", [fs_sx(files, dirs), tx(self.root), tx(arg), 1 if profile_only else 0])
             mod = lres_of_sx(g)
             if not same_lres(mod, got):
-                self.corr("load", dict(case, model=mod, impl=got),
+                self.corr("load", dict(case, model=short(mod), impl=short(got)),
                           found=expect is not None and not same_lres(got, expect), key=key)
         return got
 
@@ -556,12 +723,17 @@ class Run(object):
         cm = ConfigManager()
         text = impl_to_str(spec, fmt)
         self.count("to_str", ("str", fmt, json.dumps(spec, sort_keys=True)), nt=nontrivial(spec))
+        self.rt_failed = False
+        to_str_mismatch = None
         if m:
             g = m.call("orun_to_str", [fmt, spec_sx(spec)])
             mod = None if (isinstance(g, tuple) or not g) else xt(g[0])
             if mod != text:
-                self.corr("config_to_str", {"kind": "to_str", "spec": spec, "fmt": fmt, "model": repr(mod)[:400],
-                                            "impl": repr(text)[:400]})
+                # reported after the loads, so that the concrete failing load (if any) comes first
+                to_str_mismatch = {"kind": "to_str", "spec": spec, "fmt": fmt, "model": repr(mod)[:400],
+                                   "impl": repr(text)[:400]}
+        if text is None and to_str_mismatch:
+            self.corr("config_to_str", to_str_mismatch)
         if text is None:
             return None
         expect = ("ok", fmt_view(fmt, spec))
@@ -603,7 +775,12 @@ class Run(object):
                 continue
             self.load_both(name, [(cj, text)], dirs + [pdir], expect, case, "roundtrip_by_profile",
                            key=K_KEYVAL_PROFILE if fmt == KEYVAL else None)
+            self.load_both(name, [(cj, text)], dirs + [pdir], expect, dict(case, profile_only=True),
+                           "roundtrip_by_profile", key=K_KEYVAL_PROFILE if fmt == KEYVAL else None,
+                           profile_only=True)
             shutil.rmtree(pdir, ignore_errors=True)
+        if to_str_mismatch:
+            self.corr("config_to_str", to_str_mismatch, found=self.rt_failed)
         return text
 
     # ---- hand-written / mismatching files: correspondence of the resolver only
@@ -760,6 +937,8 @@ class Run(object):
         shutil.rmtree(pdir, ignore_errors=True)
 
     exact_total = exact_match = shape_fail = 0
+    b64_fail = []
+    rt_failed = False
     save_prog_diffs = []
 
 
@@ -795,6 +974,7 @@ def run(ctx):
     model = modelrun.Model(exe, oracle=oracle) if exe else None
     R = Run(ctx, model, oracle)
     R.save_prog_diffs = []
+    R.b64_fail = []
     rng = ctx.rng
     quick = ctx.tier == "quick"
     sdir = os.path.join(ctx.scratch, "files")
@@ -815,6 +995,10 @@ def run(ctx):
                 R.save_case(c.get("old") and (c["old"][0], c["old"][1]), c["new"], c["fmt"], use_strace)
             elif c.get("kind") == "kv_parse" and model:
                 R.keyval_text = c["text"]
+        # 0b. binary attributes at every boundary length x both formats x every load path, then base64 itself
+        R.field_encoders(sdir)
+        R.string_cases(sdir)
+        R.base64_layer()
         R.text_primitives()
         R.keyval_layer(150 if quick else 3000)
         # 1. configs: every single field, none, all; random subsets; (thorough) all 2^16 subsets
@@ -826,6 +1010,11 @@ def run(ctx):
                 specs.append((gen_spec(rng, kv, subset=[name]), kv))
             for _ in range(60 if quick else 1500):
                 specs.append((gen_spec(rng, kv), kv))
+            for name in PARAMS:            # all but one field
+                specs.append((gen_spec(rng, kv, subset=[n for n in PARAMS if n != name]), kv))
+        for i, a in enumerate(PARAMS):      # every pair of fields
+            for b in PARAMS[i + 1:]:
+                specs.append((gen_spec(rng, True, subset=[a, b]), True))
         if not quick:
             for mask in range(1 << 16):
                 sub = [n for i, n in enumerate(PARAMS) if mask >> i & 1]
@@ -910,7 +1099,15 @@ def run(ctx):
         ctx.violation("hypothesis:C19.%s" % oracle.hyp_fail[0][0], {"kind": "hypothesis", "cases": oracle.hyp_fail[:5]},
                       found_input=False)
     else:
-        ctx.ties["hypotheses"] = "ok (b64_rt, b64_clean, json_rt, json_shape, json_no_cr held on every oracle call)"
+        ctx.ties["hypotheses"] = "ok (json_rt, json_shape, json_no_cr held on every oracle call)"
+    if R.b64_fail:
+        ctx.ties["base64"] = "broken: %r" % (R.b64_fail[:2],)
+        if not ctx.violations:
+            ctx.tie_broken_without_input("hypothesis:C19.base64", R.b64_fail[:3])
+    elif model:
+        ctx.ties["base64"] = ("ok (modelled b64_encode/b64_decode equal the interpreter's base64 on every generated input; "
+                              "every binary field encoder of ConfigSerialize produced text over the 65-character alphabet "
+                              "at every boundary length)")
     if R.exact_total and R.exact_match != R.exact_total:
         if R.shape_fail == 0 and not ctx.violations:
             ctx.notes.append("traced save differs from the model's save_prog in %d/%d runs but satisfies "
@@ -925,15 +1122,19 @@ def run(ctx):
     ctx.coverage["evaluations"] = R.evals
     ctx.coverage["distinct_nontrivial"] = R.nontriv
     ctx.coverage["case_kinds"] = R.kinds
-    ctx.coverage["oracle_calls_answered_by_real_json_base64"] = oracle.calls
+    ctx.coverage["oracle_calls_answered_by_real_json"] = oracle.calls
     ctx.coverage["json_results_outside_model"] = oracle.unmodelled_json
     ctx.coverage["traced_saves"] = R.exact_total
     ctx.coverage["traced_saves_equal_to_model_save_prog"] = R.exact_match
     ctx.coverage["exhaustive"] = False
     return ctx.finish(
-        rule="cases = configs (every single field, none, all 16, random subsets; thorough: all 2^16 subsets) x "
+        rule="cases = binary attributes (id, expid, edge_routing_info, server_static_public at 0,1,2,3,56,57,58,59,100,1000 "
+             "bytes; key pair 64; all long at once) and textual values with '=', blanks, unicode (JSON also '#', ';', "
+             "newlines, outer blanks) x {json, key=value} x all load paths; base64 model vs interpreter (all lengths "
+             "0..200, long, malformed texts); configs (every single field, every pair, all but one, none, all 16, "
+             "random subsets with binary lengths up to 1000; thorough: all 2^16 subsets) x "
              "{json, key=value} x load paths {matching extension (two spellings), no extension, unknown extension, "
-             "profile used before, profile never used}; key=value dicts/texts (in-domain and hand-written/malformed); "
+             "profile used before, profile never used, each also with profile_only=True}; key=value dicts/texts (in-domain and hand-written/malformed); "
              "raw dicts for deserialize; resolver on mismatching/hand-written files; traced real saves x every "
              "crash prefix (write: 1, mid, n-1 bytes). non-trivial = distinct config with >= 2 fields incl. a binary "
              "one, distinct multi-entry dict/multi-line text, each traced save",
@@ -982,6 +1183,17 @@ def replay(ctx, data):
         stale_yo_case(R)
     elif kind == "pipeline":
         R.pipeline_case(case["spec"], True)
+    elif kind == "field_alphabet":
+        from yowsup.config.v1.serialize import ConfigSerialize
+        from yowsup.config.v1.config import Config
+        d = ConfigSerialize(Config).serialize(cfg_from_spec(case["spec"]))
+        val = d.get(case["field"])
+        print("observed: serialize()[%r] = %r" % (case["field"], val))
+        print("expected: text over [A-Za-z0-9+/=]")
+        if not (isinstance(val, str) and set(val) <= B64_ALPHABET):
+            ctx.violation("hypothesis:C19.field_encoder_alphabet", case)
+        for fmt in (KEYVAL, JSON):
+            R.roundtrip_case(case["spec"], fmt, ctx.scratch_files, True)
     elif kind == "kv_rt":
         from yowsup.config.transforms.dict_keyval import DictKeyValTransform
         T = DictKeyValTransform()
